@@ -501,7 +501,8 @@ class L2CAP_Connection_Request(L2CAP_Control_Frame):
     def serialize_psm(psm: int) -> bytes:
         serialized = struct.pack('<H', psm & 0xFFFF)
         psm >>= 16
-        while psm:
+        # The PSM field extends until the first even octet (inclusive)
+        while psm or serialized[-1] & 1:
             serialized += bytes([psm & 0xFF])
             psm >>= 8
 
